@@ -1,10 +1,10 @@
 (* C08 — every successful encoding is one well-formed JSON document in the documented
    J5 wire format.  Only statements, closed by [exact lemma], with Print Assumptions beneath. *)
-From Coq Require Import String List NArith ZArith Bool.
+From Coq Require Import String List NArith ZArith Bool Lia.
 From J5V.lib Require Import Outcome Json JsonPrint Base64 Civil.
-From J5V.model Require Import CodecTypes CodecEnc CodecEncSpec.
+From J5V.model Require Import CodecTypes CodecEnc CodecEncSpec CodecEnvDerive.
 From J5V.gen Require ReadmeGen EncSwitchGen.
-From J5V.proofs Require Import CodecEncProofs CodecEncLex CodecEncEmbed CodecEncPresence CodecEncSpecDet CodecEncInner.
+From J5V.proofs Require Import CodecEncProofs CodecEncDecProofs CodecEncLex CodecEncEmbed CodecEncPresence CodecEncSpecDet CodecEncInner CodecEnvDeriveProofs CodecEncFuel.
 Import ListNotations.
 Local Open Scope N_scope.
 
@@ -217,6 +217,44 @@ Theorem C08_inner_encoding_is_compact : forall fmt_float,
 Proof. exact inner_n_ok. Qed.
 Print Assumptions C08_inner_encoding_is_compact.
 
+(* The full statement with the inner Any encoding being the encoder itself on the payload message
+   (resolver reg and proto.Unmarshal abstract, Any values nested to depth n): no premise about
+   any_inner and none about any message is left — only the strconv float text law and the structural
+   condition oneofs_flat on the environments (decided per run). *)
+Theorem C08_full_statement_inner_encoder : forall fmt_float,
+  float_text_ok fmt_float -> forall reg unmarshal,
+  (forall tn e root, reg tn = Some (e, root) -> oneofs_flat e) ->
+  forall n env root m txt, oneofs_flat env ->
+    encode fmt_float (inner_n fmt_float reg unmarshal n) env root m = Ok txt ->
+    exists J, strict_parse txt = Some J /\ wire_format fmt_float env root m J.
+Proof. exact encode_wellformed_inner. Qed.
+Print Assumptions C08_full_statement_inner_encoder.
+(* ... and the "value" member of an Any whose payload is stored as proto bytes is the J5 JSON of the
+   payload message: the inner text reads as a tree satisfying the wire format of the payload type *)
+Theorem C08_any_value_is_payload_wire_format : forall fmt_float,
+  float_text_ok fmt_float -> forall reg unmarshal,
+  (forall tn e root, reg tn = Some (e, root) -> oneofs_flat e) ->
+  forall n tn pb t, inner_n fmt_float reg unmarshal n tn pb = Ok t ->
+    exists e root pm J, reg tn = Some (e, root) /\ unmarshal tn pb = Some pm /\
+      strict_parse t = Some J /\ wire_format fmt_float e root pm J.
+Proof. exact inner_n_wire. Qed.
+Print Assumptions C08_any_value_is_payload_wire_format.
+
+(* The model's fuel never shows: for EVERY message and every environment with flat oneof schemas the
+   encoder ends in Ok, Err (a Go error) or Panic (a Go panic), never in OutOfFuel — so the statements
+   above about "every successful encoding" range over all runs of the modelled code, also for the
+   widened domain (NaN, out-of-range dates, invalid UTF-8, ill-typed values). *)
+Theorem C08_encoder_never_out_of_fuel : forall fmt_float any_inner env,
+  oneofs_flat env -> (forall tn pb, any_inner tn pb <> OutOfFuel) ->
+  forall root m, encode fmt_float any_inner env root m <> OutOfFuel.
+Proof. exact encode_never_out_of_fuel. Qed.
+Print Assumptions C08_encoder_never_out_of_fuel.
+Theorem C08_inner_encoder_never_out_of_fuel : forall fmt_float reg unmarshal,
+  (forall tn e root, reg tn = Some (e, root) -> oneofs_flat e) ->
+  forall n tn pb, inner_n fmt_float reg unmarshal n tn pb <> OutOfFuel.
+Proof. exact inner_nf. Qed.
+Print Assumptions C08_inner_encoder_never_out_of_fuel.
+
 (* The specification leaves no freedom inside the documented domain: for a value whose scalars are
    all in-domain and whose Any values store JSON text, at most one tree satisfies the wire format —
    so "the encoder's output satisfies wire_format" pins the output completely. *)
@@ -250,6 +288,78 @@ Theorem C08_unset_omitted : forall f env ps m ms k, wire_members f env ps m ms -
   In k (map fst ms) -> exists p v, In p ps /\ p_json p = k /\ prop_present env p m = Some v.
 Proof. exact spec_unset_omitted. Qed.
 Print Assumptions C08_unset_omitted.
+
+(* ---------------------------------------------------------------- the reflector's derivation steps
+   The environment the encoder works on is not only an input: its enum schemas and the client
+   property lists of its objects are RECOMPUTED (model/CodecEnvDerive.v: buildEnum, ClientProperties /
+   nestedClone) from the raw environment of the real reflector (ObjectSchema.Properties with the
+   flatten marks, proto enum value names) and compared with the dump of the real ClientProperties /
+   EnumSchema.Options on every root type of every run (case CEnv, env_derived_b). *)
+Theorem C08_env_derived_decided : forall re e, env_derived_b re e = true ->
+  forall name s, lookup e name = Some s -> exists rs, rlookup re name = Some rs /\ derive_schema re rs = Some s.
+Proof. exact env_derived_sound. Qed.
+Print Assumptions C08_env_derived_decided.
+
+(* "enums as the short option name": the JSON value of enum number n is the name of the first proto
+   value offered with that number (all values, or all but the first under no_default) minus the
+   prefix, the prefix being the first value's name minus UNSPECIFIED *)
+Theorem C08_enum_short_name_derived : forall fmt env r nodefault values v j,
+  (exists s, lookup env r = Some s /\ derive_enum nodefault values = Some s) ->
+  wire_value fmt env (FEnum r) v j ->
+  exists pre n full z rest,
+    values = (pre ++ txt_unspecified, z) :: rest /\ v = VEnum n /\
+    option_by_number (offered nodefault values) n = Some full /\ j = JStr (trim_prefix pre full).
+Proof. exact enum_short_name_derived. Qed.
+Print Assumptions C08_enum_short_name_derived.
+
+(* "flattened objects are inlined into their parent": the client properties of an object are exactly
+   its own unflattened properties and, for each flattened one, the client properties of the child
+   schema with the proto path prefixed ... *)
+Theorem C08_client_properties_exact : forall f re ps,
+  (forall p, In (p, false) ps -> In p (client_props (S f) re ps)) /\
+  (forall p r cps q, In (p, true) ps -> p_ty p = FObject r -> rlookup re r = Some (RObject cps) ->
+     In q (client_props f re cps) -> In (nest p q) (client_props (S f) re ps)) /\
+  (forall x, In x (client_props (S f) re ps) ->
+     (exists b, In (x, b) ps) \/
+     (exists p r cps q, In (p, true) ps /\ p_ty p = FObject r /\ rlookup re r = Some (RObject cps) /\
+                        x = nest p q /\ In q (client_props f re cps))).
+Proof.
+  intros f re ps. split; [intros p; apply client_props_kept|]. split; [intros p r cps q; apply client_props_hoisted|].
+  intros x H. exact (client_props_only (S f) re ps x H).
+Qed.
+Print Assumptions C08_client_properties_exact.
+(* ... so a populated property q of a flattened child is a member of the PARENT's JSON object, under
+   q's own JSON name, read through the flattened field *)
+Theorem C08_flatten_inlined_derived : forall fmt env re ps m ms f p r cps q v,
+  wire_members fmt env (client_props (S f) re ps) m ms ->
+  In (p, true) ps -> p_ty p = FObject r -> rlookup re r = Some (RObject cps) ->
+  In q (client_props f re cps) ->
+  prop_present env (nest p q) m = Some v ->
+  In (p_json q) (map fst ms) /\ p_path (nest p q) = p_path p ++ p_path q.
+Proof. exact flatten_inlined_derived. Qed.
+Print Assumptions C08_flatten_inlined_derived.
+
+(* non-vacuity of the derivation: enum KIND with values KIND_UNSPECIFIED, KIND_A, KIND_KIND_A (short
+   names UNSPECIFIED, A, KIND_A); object R flattens field 2 (object C with a string and an exposed
+   oneof), keeps field 1 *)
+Definition dr_raw : rawenv :=
+  [([82], RObject [(mkProp [101] [1] false false [] (FEnum [75]), false);
+                   (mkProp [99] [2] false true [] (FObject [67]), true)]);
+   ([67], RObject [(mkProp [115] [1] false false [] (FScalar KString), false);
+                   (mkProp [120] [] false false [] (FOneof [88]), false)]);
+   ([88], ROneof [mkProp [97] [2] false true [3] (FScalar KBool); mkProp [98] [3] false true [2] (FScalar KInt32)]);
+   ([75], REnum false [([75;73;78;68;95;85;78;83;80;69;67;73;70;73;69;68], 0%Z); ([75;73;78;68;95;65], 1%Z);
+                      ([75;73;78;68;95;75;73;78;68;95;65], 2%Z)])].
+Example C08_derivation_example :
+  derive_schema dr_raw (RObject [(mkProp [101] [1] false false [] (FEnum [75]), false);
+                                 (mkProp [99] [2] false true [] (FObject [67]), true)]) =
+    Some (SObject [mkProp [101] [1] false false [] (FEnum [75]);
+                   mkProp [115] [2; 1] false false [] (FScalar KString);
+                   mkProp [120] [2] false true [] (FOneof [88])]) /\
+  derive_enum false [([75;73;78;68;95;85;78;83;80;69;67;73;70;73;69;68], 0%Z); ([75;73;78;68;95;65], 1%Z);
+                     ([75;73;78;68;95;75;73;78;68;95;65], 2%Z)] =
+    Some (SEnum [75;73;78;68;95] [([85;78;83;80;69;67;73;70;73;69;68], 0%Z); ([65], 1%Z); ([75;73;78;68;95;65], 2%Z)]).
+Proof. split; vm_compute; reflexivity. Qed.
 
 (* non-vacuity: a small environment (an object with an int64, a flattened string, a oneof
    wrapper and a date), a message for it, hypotheses that hold, and the encoding *)
@@ -325,4 +435,42 @@ Theorem C08_any_stored_text_not_json_fails :
   forall fmt_float any_inner, exists e, encode fmt_float any_inner ea_env [82] bad_msg = Err e.
 Proof. intros. eexists. vm_compute. reflexivity. Qed.
 Print Assumptions C08_any_stored_text_not_json_fails.
+
+(* non-vacuity of the closed statement: a schema with an enum, an array, a map, an exposed oneof (path
+   []) and both Any flavours whose payloads are stored as proto bytes; the payload type T is
+   registered (reg) and "unmarshals" (un) to a message that itself holds a j5 Any storing JSON text:
+   the encoder runs on the payload (inner_n 2), the text reads as one document. *)
+Definition cx_env : env :=
+  [([82], SObject [mkProp [101] [1] false false [] (FEnum [69]);
+                   mkProp [97] [2] false false [] (FArray (FScalar KInt32));
+                   mkProp [109] [3] false false [] (FMap (FScalar KString));
+                   mkProp [120] [] false false [] (FOneof [88]);
+                   mkProp [121] [6] false true [] (FAny false);
+                   mkProp [122] [7] false true [] (FAny true)]);
+   ([88], SOneof [mkProp [120; 97] [4] false true [5] (FScalar KBool);
+                  mkProp [120; 98] [5] false true [4] (FScalar KFloat64)]);
+   ([69], SEnum [80; 95] [([85], 0%Z); ([65], 1%Z); ([80; 95; 65], 2%Z)])].
+Definition cx_tenv : env := [([84], SObject [mkProp [105] [1] false false [] (FScalar KInt64);
+                                            mkProp [106] [2] false true [] (FAny false)])].
+Definition cx_reg (tn : bytes) : option (env * bytes) := if bytes_eqb tn [84] then Some (cx_tenv, [84]) else None.
+Definition cx_un (tn pb : bytes) : option msg :=
+  Some [(1, VInt 7%Z); (2, VMsg [(1, VStr [84]); (3, VBytes [123; 32; 34; 105; 34; 58; 34; 57; 34; 125])])].
+Definition cx_msg : msg :=
+  [(1, VEnum 2); (2, VList [VInt 1; VInt (-2)]); (3, VMap [([107], VStr [118])]); (5, VFloat 9221120237041090560);
+   (6, VMsg [(1, VStr [84]); (2, VBytes [8; 7])]);
+   (7, VMsg [(1, VStr (any_prefix ++ [84])); (2, VBytes [8; 7])])].
+Definition cx_txt : bytes := Eval vm_compute in
+  match encode ex_fmt (inner_n ex_fmt cx_reg cx_un 2) cx_env [82] cx_msg with Ok t => t | _ => [] end.
+Example C08_example_closed :
+  float_text_ok ex_fmt /\ oneofs_flat cx_env /\ (forall tn e root, cx_reg tn = Some (e, root) -> oneofs_flat e) /\
+  encode ex_fmt (inner_n ex_fmt cx_reg cx_un 2) cx_env [82] cx_msg = Ok cx_txt /\
+  (exists J, strict_parse cx_txt = Some J) /\ (200 < length cx_txt)%nat.
+Proof.
+  split; [intros is32 bits _; vm_compute; reflexivity|].
+  split; [apply oneofs_flat_b_sound; vm_compute; reflexivity|].
+  split.
+  { intros tn e root H. unfold cx_reg in H. destruct (bytes_eqb tn [84]); [|discriminate]. injection H as <- _.
+    apply oneofs_flat_b_sound. vm_compute. reflexivity. }
+  split; [vm_compute; reflexivity|]. split; [eexists; vm_compute; reflexivity|vm_compute; lia].
+Qed.
 
